@@ -15,6 +15,7 @@
 -/
 import RaftVerif.Model.FS
 import RaftVerif.Properties.C19
+import RaftVerif.Proofs.DecOrder
 namespace Raft.FS
 open Raft.Bytes Raft.Codec
 
@@ -125,5 +126,31 @@ theorem C13_snap_reopen (d : SnapDir) : d.reopen.visible = d.visible ∧ d.reope
 /-! Non-vacuity -/
 example : StateOK { term := 7, votedFor := [49] } := by unfold StateOK U64; decide
 example : readState (some (frame (encodeStateBody { term := 7, votedFor := [49] }))) = some { term := 7, votedFor := [49] } := by decide
+
+/-! ## "The most recent" snapshot: directory names sort by creation time
+
+  A published snapshot lives in `snapshot-<UnixNano>`; `SnapshotFile()` opens the last name of
+  the directory listing, which is in byte-wise order of the names (Proofs/DecOrder.lean). For
+  time stamps of one width — nineteen digits: 2001-09-09 to 2286-11-20 — that order is the
+  order of creation, and two snapshots have the same name only if they were created in the
+  same nanosecond. Names of different widths do NOT sort numerically (`snapshot-10` comes
+  before `snapshot-9`): the names must stay time stamps. -/
+
+/-- the name of the directory of a snapshot published at `t` (UnixNano) -/
+def snapName (t : Nat) : List Nat := Raft.Meta.str "snapshot-" ++ Raft.Meta.encDec t
+
+theorem C13_snapshot_names_sort_by_time (t1 t2 : Nat) (h1 : 10 ^ 18 ≤ t1) (h1' : t1 < 10 ^ 19)
+    (h2 : 10 ^ 18 ≤ t2) (h2' : t2 < 10 ^ 19) :
+    (Raft.Meta.lexLt (snapName t1) (snapName t2) = true ↔ t1 < t2) ∧ (snapName t1 = snapName t2 ↔ t1 = t2) := by
+  obtain ⟨hl, he⟩ := Raft.Meta.encDec_order 18 t1 t2 (by omega) h1 h1' h2 h2'
+  unfold snapName
+  rw [Raft.Meta.lexLt_prefix]
+  exact ⟨hl, by rw [List.append_cancel_left_eq]; exact he⟩
+
+/-- the width matters: labelled by a log index, the snapshot of index 10 would sort before that of 9 -/
+theorem C13_names_of_different_width_do_not_sort :
+    Raft.Meta.lexLt (snapName 10) (snapName 9) = true := by decide
+
+example : (10 : Nat) ^ 18 ≤ 1790000000000000000 ∧ 1790000000000000000 < 10 ^ 19 := by decide
 
 end Raft.FS
